@@ -23,6 +23,8 @@ type runResult struct {
 	solverS   float64
 	solverErr []string
 	disagree  int
+	crossUnknown int
+	crossErr     []string
 	loadS     float64
 	wallS     float64
 	regions   []sym.Region
@@ -179,9 +181,16 @@ func cmdRun(args []string) {
 			for name, st := range w.SolverStats() {
 				rr.solverQ[name] += st.Queries
 				rr.solverS += st.Seconds
-				rr.solverErr = append(rr.solverErr, st.Errors...)
+				if name == "z3" {
+					rr.solverErr = append(rr.solverErr, st.Errors...)
+				} else if len(st.Errors) > 0 {
+					// a cross-check solver that errs or dies leaves the deciding solver's
+					// verdicts un-cross-checked for the rest of that worker: counted, not fatal
+					rr.crossErr = append(rr.crossErr, name+": "+oneLine(st.Errors[0]))
+				}
 			}
 			rr.disagree += w.Disagreements
+			rr.crossUnknown += w.CrossUnknown
 			mu.Unlock()
 		}()
 	}
@@ -433,6 +442,8 @@ func finish(rr *runResult, noReplay bool, t0 time.Time) {
 			"solver_s":            round2(rr.solverS),
 			"load_s":              round2(rr.loadS),
 			"solver_disagreements": rr.disagree,
+			"cross_check_unknown":  rr.crossUnknown,
+			"cross_check_errors":   rr.crossErr,
 			"reach_witnesses":     sortedKeys(reached),
 			"asserts_covered":     sortedKeys(covered),
 			"twin_assert_false_violated": len(missing) == 0,
